@@ -250,8 +250,9 @@ def handle : List Sexp → Option Sexp
           -- the specification printer of text templates and the side condition of the inversion
           -- theorem (lenient / strict reading)
           if markup then pure (.atom "unmodelled")
-          else pure (.list [.str (if lang == "oldtext" then Print.nodesOld nodes else Print.nodesNew nodes),
-                            ofBool (Print.nodesOk false nodes), ofBool (Print.nodesOk true nodes)])
+          else if lang == "oldtext" then
+            pure (.list [.str (Print.nodesOld nodes), ofBool (Print.nodesOkOld false nodes), ofBool (Print.nodesOkOld true nodes)])
+          else pure (.list [.str (Print.nodesNew nodes), ofBool (Print.nodesOk false nodes), ofBool (Print.nodesOk true nodes)])
       | _ => none
   | args => handleRaw args
 
